@@ -193,6 +193,7 @@ class DrvEngine : public sim::Engine {
     drvsim::RunRecord rec = drvsim::run_driver(sc);
     drvsim::fill_result(rec, r);
     p->judge(sc, rec, r);
+    if (sc["nl_binary"].as_bool()) { r.stats.set("input.binary_nl", 1); r.trace_sig = sim::fnv1a(std::string("binary-nl"), r.trace_sig); }
     if (::getenv("VERIF_DUMP")) drvsim::dump_record(rec);
     return r;
   }
